@@ -57,6 +57,22 @@ CHECKS = {
              'mixed spellings) and must yield exactly the configuration or error the specification prescribes. Malformed/unknown options must be diagnosed.',
         note='Exhaustive over the related flags in the thorough tier; argument order is covered by reversal, rotation, all permutations of up to four flags (in TLC) and shuffles (conformance).',
         technique='TLA+ transcription of flag resolution, TLC exhaustive enumeration + bidirectional conformance', thorough=True),
+    'C01': dict(
+        category='model_checking', design_ref='6/C01',
+        text='Conform.tla: TLC explores the product of the machine exported from the real compiler (at -O0..-O3) and NmfuLang, an independent TLA+ reading of the '
+             'language reference (Antimirov-derivative matchers, continuation-stack semantics of case/optional/loop/break/try/foreach/if/wait/finish/yield, handlers, '
+             'exactly the timing freedom the property grants), keeping the set of Lang configurations consistent with every hook call (with output snapshot), yield, '
+             'status and final outputs the machine produced. A symbol after which that set is empty is a violation with the input history as witness, replayed on the C binary.',
+        note='Generated programs (seeded) up to a per-program input-length bound over one representative per symbol cell; the oracle is permissive at the open points OP1-OP8 of DESIGN.md; '
+             'data effects of actions reuse the machine specification (decided by C14/C15); C06 binds the binary to the machine.',
+        technique='TLC product exploration: exported DFA x TLA+ source semantics (candidate-set refinement)', thorough=True),
+    'C05': dict(
+        category='model_checking', design_ref='6/C05',
+        text='Equiv.tla: per program TLC explores the product of the -O0 machine and the machine compiled with the optimisation under test (levels, single flags, thresholds; thorough: all 32 flag subsets) '
+             'over all joint symbol cells, comparing the strict event streams (hooks with exposed outputs, yields), the status after every symbol and the final outputs, allowing exactly a one-symbol '
+             'shift of between-bytes actions (and of the terminal status they produce). Compiler verdicts must also agree. Witnesses are replayed on both binaries.',
+        note='Length-bounded product search on generated and corpus programs; code-generation-only optimisations (range collapsing) are bound to the machine by C06, which runs -O2/-O3 builds.',
+        technique='TLC bisimulation-with-slack of two exported machines', thorough=True),
 }
 
 NOT_YET = 'check not built yet in this session (specification work in progress); see DESIGN.md section 12'
